@@ -212,16 +212,31 @@ def vacuity_probe(r, tops_only, scratch, tops):
     for k in ok:
         tails.setdefault('::'.join(k.split('::')[-2:]), []).append(k)
 
+    def impl_group(f):
+        # a method of a trait impl is reported as `<module>::impl&%N::<name>` (N: the ordinal of the impl block): several impls
+        # of one trait in one module give several candidates with the same method name
+        mod, name = '::'.join(f.path.split('::')[:-2]), f.path.split('::')[-1]
+        return (mod, name), [k for k in ok if k.split('::')[-1] == name and '::'.join(k.split('::')[:-2]) == mod and 'impl&%' in k]
+
+    groups = {}
+    for f in targets:
+        if f.path in ok or len(tails.get('::'.join(f.path.split('::')[-2:]), [])) == 1:
+            continue
+        g, cands = impl_group(f)
+        groups.setdefault(g, {'targets': [], 'cands': cands})['targets'].append(f.path)
+
     def verdict(f):
         if f.path in ok:
             return ok[f.path]
         c = tails.get('::'.join(f.path.split('::')[-2:]), [])
         if len(c) == 1:
             return ok[c[0]]
-        # a method of a trait impl is reported as `<module>::impl&%N::<name>`: match by module and method name
-        mod, name = '::'.join(f.path.split('::')[:-2]), f.path.split('::')[-1]
-        c = [k for k in ok if k.split('::')[-1] == name and '::'.join(k.split('::')[:-2]) == mod and 'impl&%' in k]
-        return ok[c[0]] if len(c) == 1 else True
+        g, cands = impl_group(f)
+        if not cands:
+            return True
+        # every probed member of the group must have been rejected: at most (candidates - probed) functions may still verify
+        accepted = sum(1 for k in cands if ok[k])
+        return accepted > len(cands) - len(groups[g]['targets'])
     survivors = [f.path for f in targets if verdict(f)]
     return len(targets), survivors
 
